@@ -24,7 +24,7 @@ Proof. intros H1 H2. unfold box_ok. cbn. numR. rewrite (proj2 (Rleb_true l x) H1
 
 Theorem opt_log_reported_value_refuted :
   exists (ll : list R -> option R) (O : optimiser R) p0 lower upper w,
-    opt ll ll O p0 (Some lower) (Some upper) None false true = Some w /\
+    opt_snapshot ll ll O p0 (Some lower) (Some upper) None false true = Some w /\
     contract true (w_lo w) (w_hi w) (w_start w) (fun x => fst (opt_objective ll ll false None true x)) (w_oracle w) /\
     ll_guard ll ll false (w_x w) <> w_f w.
 Proof.
@@ -41,15 +41,15 @@ Proof.
   - cbv beta. rewrite ?obj_first. unfold ll_guard, ll_first, project_up. cbn [map hd]. rewrite !exp_ln by lra. lra.
 Qed.
 
-(** optimize_lbfgsb as written hands numpy.log(p0) to an optimiser that works on the parameters themselves:
+(** optimize_lbfgsb as written in the snapshot hands numpy.log(p0) to an optimiser that works on the parameters themselves:
     the first model evaluation is not at the user's start *)
 Definition O_start : optimiser R := fun _ _ x0 f => {| o_trace := [x0]; o_x := x0; o_f := f x0 |}.
 
 Theorem optimize_lbfgsb_first_evaluation_refuted :
   exists (ll : list R -> option R) (O : optimiser R) p0 w,
-    optimize_lbfgsb ll ll O p0 None None None false 1 = Some w /\
+    optimize_lbfgsb_snapshot ll ll O p0 None None None false 1 = Some w /\
     contract false (w_lo w) (w_hi w) (w_start w)
-             (fun x => fst (scipy_objective ll ll cfg_optimize_lbfgsb None None false None 1 x)) (w_oracle w) /\
+             (fun x => fst (scipy_objective ll ll cfg_optimize_lbfgsb_snapshot None None false None 1 x)) (w_oracle w) /\
     hd_error (w_evals w) <> Some p0.
 Proof.
   exists ll_first, O_start, [1]. eexists. split; [reflexivity|].
@@ -61,8 +61,8 @@ Proof.
   - cbn. numR. rewrite ln_1. intros H. injection H as H. lra.
 Qed.
 
-(** optimize_grid with full_output over a single free parameter raises (IndexError in the thetas loop) whatever the rest *)
+(** optimize_grid of the snapshot with full_output over a single free parameter raises (IndexError in the thetas loop) whatever the rest *)
 Theorem optimize_grid_full_output_one_parameter_refuted :
   forall (ll : list R -> option R) (O : grid_optimiser R) (g : R) rest fixed multinom,
-    optimize_grid ll ll O ([g] :: rest) fixed multinom true = None.
+    optimize_grid_snapshot ll ll O ([g] :: rest) fixed multinom true = None.
 Proof. reflexivity. Qed.
